@@ -7,6 +7,7 @@
 pub mod core;
 pub mod checks;
 pub mod clock;
+pub mod detrand;
 pub mod gen;
 pub mod refm;
 pub mod sim;
